@@ -398,4 +398,171 @@ theorem cUnitOp_Φ (pol : Policy) (s : HState R) (op : COp) (hop : COp.isTake op
     rw [strFree_Φ]
     cases strFree pol s.env v <;> rfl
 
+/-- A list of handler-body calls without `take_last_error`. -/
+def opsTakeFree (ops : List COp) : Prop := ∀ op ∈ ops, COp.isTake op = false
+
+theorem cUnitOps_Φ (pol : Policy) (ops : List COp) (hops : opsTakeFree ops) (s : HState R) :
+    cUnitOps pol t (HΦ L t s) ops = mapRes (HΦ L t) (cUnitOps pol canon s ops) := by
+  induction ops generalizing s with
+  | nil => rfl
+  | cons op rest ih =>
+    simp only [cUnitOps, cUnitOp_Φ L t pol s op (hops op (by simp))]
+    cases cUnitOp pol canon s op with
+    | ok s1 => exact ih (fun o ho => hops o (by simp [ho])) s1
+    | notPermitted w => rfl
+    | fault f => rfl
+
+theorem enter_Φ (e : Env R) (hid : Nat) : enter (Φ L t e) hid = (Φ L t (enter e hid).1, (enter e hid).2) := rfl
+
+theorem runHandler_Φ (pol : Policy) (prog : Prog) (hp : takeFree prog) (hid : Nat) (u : R.U) (e : Env R) :
+    runHandler pol prog t hid u (Φ L t e) = mapRes (fun x => (HΦ L t x.1, x.2)) (runHandler pol prog canon hid u e) := by
+  unfold runHandler
+  simp only [enter_Φ]
+  have := cUnitOps_Φ L t pol (prog hid).ops (hp hid) ⟨u, (enter e hid).1⟩
+  dsimp only [HΦ] at this
+  rw [this]
+  cases cUnitOps pol canon ⟨u, (enter e hid).1⟩ (prog hid).ops <;> rfl
+
+omit L t in
+/-- The tail of `runStreaming` after the handler body ran. -/
+def afterOps (sid : Nat) (ret : Int) (r : Res (HState R)) : Res (HState R × Int) := do
+  let s ← r
+  let env ← releaseHandler s.env sid
+  pure ({ s with env := env }, ret)
+
+theorem afterOps_Φ (sid : Nat) (ret : Int) (r : Res (HState R)) :
+    afterOps sid ret (mapRes (HΦ L t) r) = mapRes (fun x => (HΦ L t x.1, x.2)) (afterOps sid ret r) := by
+  cases r with
+  | ok s =>
+    simp only [afterOps, mapRes, ok_bind, HΦ_env, releaseHandler_Φ]
+    cases releaseHandler s.env sid <;> rfl
+  | notPermitted w => rfl
+  | fault f => rfl
+
+theorem runStreaming_Φ (pol : Policy) (prog : Prog) (hp : takeFree prog) (sid : Nat) (u : R.U) (e : Env R) :
+    runStreaming pol prog t sid u (Φ L t e)
+      = mapRes (fun x => (HΦ L t x.1, x.2)) (runStreaming pol prog canon sid u e) := by
+  unfold runStreaming
+  rw [show (Φ L t e).objs[sid]? = e.objs[sid]? from rfl]
+  cases e.objs[sid]? with
+  | none => rfl
+  | some o =>
+    obtain ⟨st, p⟩ := o
+    cases st <;> try rfl
+    cases p <;> try rfl
+    rename_i script hasDrop
+    have := cUnitOps_Φ L t pol (prog script).ops (hp script)
+      ⟨u, (enter (e.setObj sid ⟨.taken, .shandler script hasDrop⟩) script).1⟩
+    show afterOps sid (prog script).ret (cUnitOps pol t
+        (HΦ L t ⟨u, (enter (e.setObj sid ⟨.taken, .shandler script hasDrop⟩) script).1⟩) (prog script).ops) = _
+    rw [this, afterOps_Φ]
+    rfl
+
+theorem drive_Φ (pol : Policy) (prog : Prog) (hp : takeFree prog) (fuel : Nat) (rw : R.Rw)
+    (inp : RIn R.Chunk R.U) (e : Env R) :
+    drive pol prog t fuel rw inp (Φ L t e)
+      = mapRes (fun x => (x.1, Φ L t x.2.1, x.2.2)) (drive pol prog canon fuel rw inp e) := by
+  induction fuel generalizing rw inp e with
+  | zero => rfl
+  | succ fuel ih =>
+    unfold drive
+    rcases R.step rw inp with ⟨rw', evs, next⟩
+    simp only [applyEvents_Φ]
+    cases applyEvents e evs with
+    | notPermitted w => rfl
+    | fault f => rfl
+    | ok e1 =>
+      simp only [mapRes, ok_bind]
+      cases next with
+      | done r =>
+        cases r with
+        | ok x => cases x; rfl
+        | error m => rfl
+      | invoke h u =>
+        cases h with
+        | reg hid =>
+          simp only [runHandler_Φ L t pol prog hp]
+          rcases runHandler pol prog canon hid u e1 with ⟨s, stop⟩ | w | f
+          · exact ih _ _ s.env
+          · rfl
+          · rfl
+        | endTag hid =>
+          simp only [runHandler_Φ L t pol prog hp]
+          rcases runHandler pol prog canon hid u e1 with ⟨s, stop⟩ | w | f
+          · exact ih _ _ s.env
+          · rfl
+          · rfl
+        | streaming sid =>
+          simp only [runStreaming_Φ L t pol prog hp]
+          rcases runStreaming pol prog canon sid u e1 with ⟨s, code⟩ | w | f
+          · exact ih _ _ s.env
+          · rfl
+          · rfl
+
+theorem setObj_Φ (e : Env R) (h : Nat) (o : Obj R) : (Φ L t e).setObj h o = Φ L t (e.setObj h o) := rfl
+
+theorem topStep_Φ_write (pol : Policy) (prog : Prog) (hp : takeFree prog) (e : Env R) (r : Nat) (chunk : R.Chunk) :
+    topStep pol prog (Φ L t e) ⟨t, .write r chunk⟩ = mapRes (Φ L t) (topStep pol prog e ⟨canon, .write r chunk⟩) := by
+  simp only [topStep, validArg_Φ, deref_Φ]
+  cases validArg e r .rewriter <;> simp only [require] <;> try rfl
+  rcases deref e r .rewriter with ⟨h, ⟨st, p⟩⟩ | w | f <;> try rfl
+  cases p <;> try rfl
+  rename_i inner poisoned
+  cases inner <;> try rfl
+  rename_i rw
+  simp only [if_true, ok_bind]
+  cases poisoned
+  · simp only [Bool.not_false, if_true, ok_bind, drive_Φ L t pol prog hp]
+    rcases drive pol prog canon fuelDefault rw (.write chunk) e with ⟨rw1, e1, res⟩ | w | f <;> try rfl
+    cases res with
+    | ok x => cases x; rfl
+    | error m => simp only [mapRes, ok_bind, setObj_Φ, save_Φ]; rfl
+  · rfl
+
+theorem topStep_Φ_end (pol : Policy) (prog : Prog) (hp : takeFree prog) (e : Env R) (r : Nat) :
+    topStep pol prog (Φ L t e) ⟨t, .end_ r⟩ = mapRes (Φ L t) (topStep pol prog e ⟨canon, .end_ r⟩) := by
+  simp only [topStep, validArg_Φ, deref_Φ]
+  cases validArg e r .rewriter <;> simp only [require] <;> try rfl
+  rcases deref e r .rewriter with ⟨h, ⟨st, p⟩⟩ | w | f <;> try rfl
+  cases p <;> try rfl
+  rename_i inner poisoned
+  cases inner <;> try rfl
+  rename_i rw
+  simp only [if_true, ok_bind]
+  cases poisoned
+  · simp only [Bool.not_false, if_true, ok_bind, setObj_Φ, drive_Φ L t pol prog hp]
+    rcases drive pol prog canon fuelDefault rw .end_ (e.setObj h ⟨.taken, .rewriter none false⟩)
+      with ⟨rw1, e1, res⟩ | w | f <;> try rfl
+    simp only [mapRes, ok_bind, applyEvents_Φ]
+    cases applyEvents e1 (R.drop rw1) with
+    | notPermitted w => rfl
+    | fault f => rfl
+    | ok e2 =>
+      cases res with
+      | ok x => cases x; rfl
+      | error m => simp only [mapRes, ok_bind, save_Φ]; rfl
+  · rfl
+
+omit L t in
+/-- **Thread parametricity of the whole C API** (`capiThreadParametric_statement`): every entry point other than
+    `take_last_error`, with all the call-backs it triggers (handlers that do not themselves call
+    `take_last_error`), behaves on thread `t` with arbitrary `LAST_ERROR` slots exactly as on the canonical
+    thread with clean slots, up to recording its last error into slot `t`. -/
+theorem capiThreadParametric : capiThreadParametric_statement R := by
+  intro pol prog hp e t op hop
+  refine parametricAt_of_Φ (fun L t e => ?_) e t
+  cases op with
+  | write r chunk => exact topStep_Φ_write L t pol prog hp e r chunk
+  | end_ r => exact topStep_Φ_end L t pol prog hp e r
+  | builderNew dst => exact topStep_Φ L t pol prog e _ rfl rfl
+  | selectorParse dst s => exact topStep_Φ L t pol prog e _ rfl rfl
+  | addDoc b r => exact topStep_Φ L t pol prog e _ rfl rfl
+  | addElem b sel el cm tx => exact topStep_Φ L t pol prog e _ rfl rfl
+  | build dst b enc mem strict esi => exact topStep_Φ L t pol prog e _ rfl rfl
+  | rewriterFree r => exact topStep_Φ L t pol prog e _ rfl rfl
+  | builderFree b => exact topStep_Φ L t pol prog e _ rfl rfl
+  | selectorFree s => exact topStep_Φ L t pol prog e _ rfl rfl
+  | strFree v => exact topStep_Φ L t pol prog e _ rfl rfl
+  | takeLastError dst => simp [isTake] at hop
+
 end LolHtml.Thm.C18
